@@ -601,4 +601,34 @@ def arazi_qi {n : Nat} (t : Nat) (a : RU n) : RU n :=
       let t1 := mul t t1 ul
       .node ul (neg t1)
 
+/-! ### ruconvert.h / rconvert.h (after fixes/C06_6: `mpz_to_ruint` reduces its argument modulo 2^bits first) -/
+/-- `NBLIMB<6+n>::value` -/
+def nblimb : Nat → Nat
+  | 0 => 1
+  | n+1 => 2 * nblimb n
+/-- `set_limb(a, b, index)` -/
+def set_limb : {n : Nat} → RU n → Nat → Nat → RU n
+  | _, .limb v, b, i => if i = 0 then .limb b else .limb v
+  | _, .node (n := n) l h, b, i =>
+      if i < nblimb n then .node (set_limb l b i) h else .node l (set_limb h b (i - nblimb n))
+/-- `mpz_to_ruint(a, b)`: `c = b mod 2^bits; reset(a); for i < NBLIMB: set_limb(a, c.get_ui(), i); c >>= 64` -/
+def mpz_to_ruint (n : Nat) (z : Int) : RU n :=
+  ((List.range (nblimb n)).foldl (fun (st : RU n × Nat) i => (set_limb st.1 (st.2 % B64) i, st.2 / B64))
+    (zero n, (z % (Bn n : Int)).toNat)).1
+def limbsVal : List Nat → Nat
+  | [] => 0
+  | l :: ls => l + B64 * limbsVal ls
+/-- `ruint_to_mpz(a, b)`: `mpz_import` of the contiguous limbs, least significant first (GMP contract) -/
+def ruint_to_mpz (b : RU n) : Int := (limbsVal (limbsLS b) : Nat)
+/-- `ms_limb` -/
+def ms_limb : {n : Nat} → RU n → Nat
+  | _, .limb v => v
+  | _, .node _ h => ms_limb h
+/-- `rint::isNegative()` -/
+def isNegative (b : RU n) : Bool := decide (ms_limb b &&& 9223372036854775808 ≠ 0)
+/-- `mpz_to_rint(a, b)` -/
+def mpz_to_rint (n : Nat) (z : Int) : RU n := if z < 0 then neg (mpz_to_ruint n (-z)) else mpz_to_ruint n z
+/-- `rint_to_mpz(a, b)` -/
+def rint_to_mpz (b : RU n) : Int := if isNegative b then -(ruint_to_mpz (neg b)) else ruint_to_mpz b
+
 end Givaro.Model.RecInt
